@@ -11,6 +11,7 @@ use regex_syntax::ast::{self, Ast};
 pub fn dispatch(kind: u32, v: &Val) -> Option<Val> {
     match kind {
         101 => Some(run_case(v)),
+        102 => Some(run_smart(v)),
         _ => None,
     }
 }
@@ -187,5 +188,104 @@ fn run_case(v: &Val) -> Val {
         nums(&c),
         hir_to_val(m.verif_hir_final()),
         Val::of_bool(m.line_terminator().is_some()),
+    ])
+}
+
+// ---- kind 102: the smart-case decision --------------------------------------------------------------------
+
+fn tagged(t: u128, rest: Vec<Val>) -> Val {
+    let mut v = vec![Val::N(t)];
+    v.extend(rest);
+    Val::L(v)
+}
+fn lit_val(c: char, ups: &mut Vec<u128>) -> u128 {
+    // std's answer, not ripgrep's
+    if c.is_uppercase() && !ups.contains(&(c as u128)) {
+        ups.push(c as u128);
+    }
+    c as u128
+}
+/// regex-syntax class set / item -> the `cls` value syntax of Run/RunC01.v
+fn cls_item_val(i: &ast::ClassSetItem, ups: &mut Vec<u128>) -> Val {
+    match i {
+        ast::ClassSetItem::Empty(_) => tagged(0, vec![Val::N(0)]),
+        ast::ClassSetItem::Ascii(_) => tagged(0, vec![Val::N(1)]),
+        ast::ClassSetItem::Unicode(_) => tagged(0, vec![Val::N(2)]),
+        ast::ClassSetItem::Perl(_) => tagged(0, vec![Val::N(3)]),
+        ast::ClassSetItem::Literal(l) => tagged(1, vec![Val::N(lit_val(l.c, ups))]),
+        ast::ClassSetItem::Range(r) => {
+            let s = lit_val(r.start.c, ups);
+            let e = lit_val(r.end.c, ups);
+            tagged(2, vec![Val::N(s), Val::N(e)])
+        }
+        ast::ClassSetItem::Bracketed(b) => tagged(3, vec![Val::of_bool(b.negated), cls_set_val(&b.kind, ups)]),
+        ast::ClassSetItem::Union(u) => tagged(4, vec![Val::L(u.items.iter().map(|x| cls_item_val(x, ups)).collect())]),
+    }
+}
+fn cls_set_val(s: &ast::ClassSet, ups: &mut Vec<u128>) -> Val {
+    match s {
+        ast::ClassSet::Item(i) => cls_item_val(i, ups),
+        ast::ClassSet::BinaryOp(op) => tagged(5, vec![cls_set_val(&op.lhs, ups), cls_set_val(&op.rhs, ups)]),
+    }
+}
+/// regex-syntax AST -> the `ast` value syntax of Run/RunC01.v
+fn sast_val(a: &Ast, ups: &mut Vec<u128>) -> Val {
+    match a {
+        Ast::Empty(_) => tagged(0, vec![Val::N(0)]),
+        Ast::Flags(_) => tagged(0, vec![Val::N(1)]),
+        Ast::Dot(_) => tagged(0, vec![Val::N(2)]),
+        Ast::Assertion(_) => tagged(0, vec![Val::N(3)]),
+        Ast::ClassUnicode(_) => tagged(0, vec![Val::N(4)]),
+        Ast::ClassPerl(_) => tagged(0, vec![Val::N(5)]),
+        Ast::Literal(l) => tagged(1, vec![Val::N(lit_val(l.c, ups))]),
+        Ast::ClassBracketed(c) => tagged(2, vec![Val::of_bool(c.negated), cls_set_val(&c.kind, ups)]),
+        Ast::Repetition(r) => tagged(3, vec![sast_val(&r.ast, ups)]),
+        Ast::Group(g) => tagged(4, vec![sast_val(&g.ast, ups)]),
+        Ast::Alternation(x) => tagged(5, vec![Val::L(x.asts.iter().map(|y| sast_val(y, ups)).collect())]),
+        Ast::Concat(x) => tagged(6, vec![Val::L(x.asts.iter().map(|y| sast_val(y, ups)).collect())]),
+    }
+}
+
+/// 102: (patterns icase smart)
+///   -> (2) the real builder rejects the patterns
+///    | (3) the builder accepted but no translated HIR was recorded / the pattern does not parse on its own
+///    | (0 ast uppers observed oracle_any_literal oracle_any_uppercase)
+/// `observed`: the case mode RegexMatcherBuilder chose, read off the HIR it handed to the translator
+/// (`verif_take_translated_hir`): 1 = equal to the regex-syntax translation with case_insensitive(true),
+/// 0 = equal to the one with case_insensitive(false), 2 = both translations coincide (decision not
+/// observable for this pattern), 3 = equal to neither.
+/// `oracle_*`: the documented rule on the AST (`smart_scan` above, independent of crates/regex/src/ast.rs).
+fn run_smart(v: &Val) -> Val {
+    let pats: Option<Vec<String>> = v.fld(0).list().iter().map(|p| String::from_utf8(p.bytes()).ok()).collect();
+    let pats = match pats { Some(p) => p, None => return Val::L(vec![Val::N(2)]) };
+    let (icase, smart) = (v.fld(1).b(), v.fld(2).b());
+    let _ = grep_regex::verif_take_translated_hir();
+    let mut b = grep_regex::RegexMatcherBuilder::new();
+    b.case_insensitive(icase).case_smart(smart);
+    if b.build_many(&pats).is_err() {
+        return Val::L(vec![Val::N(2)]);
+    }
+    let got = match grep_regex::verif_take_translated_hir() { Some(h) => h, None => return Val::L(vec![Val::N(3)]) };
+    let pat = pats.iter().map(|p| format!("(?:{})", p)).collect::<Vec<_>>().join("|");
+    let a = match ast::parse::ParserBuilder::new().nest_limit(250).build().parse(&pat) {
+        Ok(a) => a,
+        Err(_) => return Val::L(vec![Val::N(3)]),
+    };
+    let tr = |ci: bool| {
+        regex_syntax::hir::translate::TranslatorBuilder::new().utf8(false).case_insensitive(ci).unicode(true).build().translate(&pat, &a)
+    };
+    let (hi, hs) = match (tr(true), tr(false)) { (Ok(x), Ok(y)) => (x, y), _ => return Val::L(vec![Val::N(3)]) };
+    let observed = if hi == hs { 2 } else if got == hi { 1 } else if got == hs { 0 } else { 3 };
+    let mut ups = vec![];
+    let av = sast_val(&a, &mut ups);
+    let (mut l, mut u) = (false, false);
+    smart_scan(&a, &mut l, &mut u);
+    Val::L(vec![
+        Val::N(0),
+        av,
+        Val::L(ups.into_iter().map(Val::N).collect()),
+        Val::N(observed),
+        Val::of_bool(l),
+        Val::of_bool(u),
     ])
 }
